@@ -162,28 +162,43 @@ def _member_chunk(body: list[str], member: str) -> str | None:
     return None
 
 
-def judge_inherit_groups(pkg: dict, gen_texts: list[str], flag: bool) -> list[dict]:
-    """Members inlined from one private base into several public subclasses must have identical text."""
+def judge_inherit_groups(pkg: dict, gen_entries: list[tuple[str, str]], flag: bool) -> list[dict]:
+    """Members inlined from one private base into several public subclasses must have identical text.
+    gen_entries: (directory of the stub relative to the output directory, text). A class is looked up in the stub of
+    its own module; only if it is not there (re-exported elsewhere) by its name, and then only if that name is unique
+    (two packages of one workload may both have a class PubOne)."""
     out = []
     groups = (pkg.get("meta", {}).get("probes") or {}).get("inherit_groups") or []
     if not groups:
         return out
-    blocks: dict[str, list[str]] = {}
-    for t in gen_texts:
+    by_dir: dict[str, dict[str, list[str]]] = {}
+    by_name: dict[str, list[list[str]]] = {}
+    for d_rel, t in gen_entries:
         for name, body in _class_blocks(t).items():
-            blocks.setdefault(name, body)
+            by_dir.setdefault(d_rel, {}).setdefault(name, body)
+            by_name.setdefault(name, []).append(body)
+    blocks: dict[str, list[str]] = {}
+    for g in groups:
+        for sub in g["subs"]:
+            cname = sub.split(".")[-1]
+            mod_dir = "/".join(sub.split(".")[:-1])
+            body = (by_dir.get(mod_dir) or {}).get(cname)
+            if body is None and len(by_name.get(cname, [])) == 1:
+                body = by_name[cname][0]
+            if body is not None:
+                blocks[sub] = body
     for g in groups:
         for member in g["members"]:
             seen: dict[str, str] = {}
             for sub in g["subs"]:
                 cname = sub.split(".")[-1]
-                body = blocks.get(cname)
+                body = blocks.get(sub)
                 if body is None:
                     continue
                 ch = _member_chunk(body, member)
                 if ch is not None:
                     seen[cname] = ch
-            present_classes = [sub.split(".")[-1] for sub in g["subs"] if sub.split(".")[-1] in blocks]
+            present_classes = [sub.split(".")[-1] for sub in g["subs"] if sub in blocks]
             missing = [c for c in present_classes if c not in seen]
             if seen and missing:
                 a = sorted(seen)[0]
@@ -259,8 +274,8 @@ def judge_component(case: dict, res: dict) -> tuple[list[dict], dict]:
             if flag not in base:
                 base[flag] = rec["gen"]
                 base_op[flag] = rec["k"]
-                gen_texts = [texts[e[2]] for e in rec["gen"] if e[2] in texts]
-                for iv in judge_inherit_groups(case["pkg"], gen_texts, flag):
+                gen_entries = [(e[0], texts[e[2]]) for e in rec["gen"] if e[2] in texts]
+                for iv in judge_inherit_groups(case["pkg"], gen_entries, flag):
                     viols.append({"class": "inherited-rendering-differs", "history": 0, "detail": dict(iv, k=rec["k"], fingerprint={"gkey": "inherit"})})
                 stats["inherit_members_compared"] += sum(len(g["members"]) for g in (case["pkg"].get("meta", {}).get("probes") or {}).get("inherit_groups") or [])
             else:
